@@ -64,6 +64,10 @@ def mk_not(a):
 
 
 def mk_cmp(op, a, b):
+    if a[0] == "variant" and b[0] == "variant" and not a[2] and not b[2] and op in ("Eq", "Ne"):
+        return ("bool", (a[1] == b[1]) == (op == "Eq"))
+    if a[0] == "bool" and b[0] == "bool" and op in ("Eq", "Ne"):
+        return ("bool", (a[1] == b[1]) == (op == "Eq"))
     if a[0] == "lit" and b[0] == "lit":
         try:
             x, y = int(a[1]), int(b[1])
@@ -176,6 +180,8 @@ class PE:
             d = n["res"].get("def") or ""
             if H.last(d) == "None" and "option" in d:
                 return ("none",)
+            if n["res"].get("dk") in ("Ctor", "Variant") and not (n.get("ty") or "").startswith("fn("):
+                return ("variant", H.last(d), ())   # a unit variant (Ordering::Less)
             if d.endswith("usize::MAX") or d.endswith("::MAX"):
                 return ("lit", "MAX")
             return unk("path %s" % H.last(d))
@@ -321,6 +327,13 @@ class PE:
             return unk("field")
         if k == "Ret":
             return self.ev(n.get("e"), env, depth + 1) if n.get("e") is not None else unk("return")
+        if k == "Try":
+            v = self.ev(n["e"], env, depth + 1)
+            if v[0] == "variant" and v[1] == "Ok" and len(v[2]) == 1:
+                return v[2][0]
+            if v[0] == "some":
+                return v[1]
+            return unk("? on unknown")
         return unk(k)
 
     def ite(self, c, a, b):
